@@ -381,7 +381,7 @@ def cut_loop(ip, key, assigned, guard, bind, body, extra=None, lc=None):
         for nm, f in _clauses(lc.stop(SV(c.heap0), c.sv(), view(0)), "stop"):
             c.prove(f"{name}/reached-only-if/{nm}", f, kind="region-end")
         # up to here nothing allocated before the call has been written
-        c.task.check_frame(c, SV(c.heap0), c.task.spec_args, f"{name}/reached-with", unchanged=True)
+        c.task.check_frame(c, SV(c.heap0), c.task.spec_args, f"{name}/reached-with", unchanged=lc.stop_unchanged)
         c.assumptions_used.add(f"NOT VERIFIED: {key[0]} from its loop {key[1]} on (the verified region ends there; see the bounded pass)")
         raise PathEnd()
     if lc is not None and lc.ghost:
